@@ -63,6 +63,18 @@ theorem scanGen_eq (P : Project) (g : G) (w : World) (t : Nat) {i gd : Cond} {ps
       cases hst : stateOf P w v <;> simp [ih]
     all_goals (generalize hasChanged w t v _ = c; cases c <;> simp [ih])
 
+/-- With provisional nodes (outside the static model): a provisional node that is no predecessor is skipped by the
+loop (`continue`), whatever follows. -/
+theorem scanGen_skips_provisional (P : Project) (g : G) (w : World) (t : Nat) {i gd : Cond} {ps : List NPart} {ls : List LStep}
+    (h : execScan = some (i, gd, ps, ls)) (prov : Nat → Bool) (v : Nat) (vs : List Nat)
+    (hp : prov v = true) (hn : inPredSet g t ps v = false) :
+    scanGen P g w t ps ls prov false (v :: vs) = scanGen P g w t ps ls prov false vs := by
+  simp only [execScan, setupImpls, List.find?] at h
+  simp at h
+  obtain ⟨-, -, rfl, rfl⟩ := h
+  rw [scanGen]
+  simp [runSteps, evalL, runActs, hp, hn]
+
 /-! ### pytask_execute_task_setup implementations -/
 
 theorem changedAny_eq (w : World) (t : Nat) : ∀ (l : List (Nat × Option Nat)),
